@@ -71,6 +71,8 @@ def run(res):
                 try:
                     r = lib.run_harness("onchain", sub, res.seed * 1000 + k, n // chunks, res.tier, profile=prof)
                 except lib.Fail as e:
+                    if "build failed" in str(e):
+                        raise       # not a behaviour of the code under test
                     aborted.append({"sub": sub, "profile": prof, "seed": res.seed * 1000 + k, "n": n // chunks,
                                     "error": str(e)[-600:]})
                     continue
@@ -90,6 +92,8 @@ def run(res):
         try:
             r = lib.run_harness("onchain", "witness", res.seed, 1, res.tier, profile=prof)
         except lib.Fail as e:
+            if "build failed" in str(e):
+                raise
             res.violation("Node::check_onchain_tx brings the process down on a non-beneficial value of 2^64/1000 sat "
                           "(`non_beneficial_sat * 1000` overflows with the state lock held; %s build)" % prof,
                           {"domain": "onchain-witness", "profile": prof, "case": witness_desc, "error": str(e)[-400:]})
